@@ -11,7 +11,7 @@ LEVEL_TEXT = ('Bounded symbolic verification, inductive: from every invariant se
               'at least the type\'s minimum length; since the relation holds for arbitrary pre-counters it holds after any history. '
               'Also along symbolic event sequences from boot, read through the REST statistic helper.')
 LEVEL_NOTE = 'Twisted as modelled. Over-long frames of fixed-length types are not part of the obligations (only reference-encoded and too-short frames).'
-LEVEL_ADDED = 'Also: type-specific bad lengths, out-of-range UPDATE length fields, and every message kind delivered in two TCP segments (cut after 5 / 19 / all but one octet). ROUTE-REFRESH with the local route-refresh capabilities off; NOTIFICATION followed by more messages in one segment (only what precedes the close is received). The 29-octet OPEN (no optional parameter).'
+LEVEL_ADDED = 'Also: type-specific bad lengths, out-of-range UPDATE length fields, and every message kind delivered in two TCP segments (cut after 5 / 19 / all but one octet). ROUTE-REFRESH with the local route-refresh capabilities off; NOTIFICATION followed by more messages in one segment (only what precedes the close is received). The 29-octet OPEN (no optional parameter). UPDATEs that carry only an MP attribute (withdrawal of a rule never announced, IPv6, unknown family); an UPDATE of exactly 4096 octets.'
 TECHNIQUE = 'symbolic one-step counter relation with symbolic pre-counters + bounded symbolic sequences (CrossHair+z3)'
 EXPLANATION = 'C18: per-step counter deltas vs the transport log and the delivered stream.'
 BOUNDS = 'all (state, event class) pairs; pre-counters 0..2^31; sequences from boot depth 4 (quick) / 5 (thorough)'
